@@ -773,63 +773,90 @@ func c13TextDecoded(c *Ctx, rule string) {
 		c.R.Break(rule + ": the default pattern parser (a literal of core's initialiser) was not found")
 		return
 	}
-	c.R.Fn(fname(parser))
-	var decodes []ssa.Instruction
-	ssau.Instrs(parser, func(in ssa.Instruction) {
-		if ci, ok := in.(ssa.CallInstruction); ok {
-			n := ssau.CalleeName(ci)
-			if n == "encoding/json.Unmarshal" || n == "(*encoding/json.Decoder).Decode" {
-				decodes = append(decodes, in)
-			} else if h := ci.Common().StaticCallee(); h != nil && h.Blocks != nil && prog.PkgOf(h) == "core" {
-				// a helper that decodes
-				for _, g := range append([]*ssa.Function{h}, pkgClosure(h)...) {
-					ssau.Instrs(g, func(in2 ssa.Instruction) {
-						if c2, ok2 := in2.(ssa.CallInstruction); ok2 {
-							if n2 := ssau.CalleeName(c2); n2 == "encoding/json.Unmarshal" || n2 == "(*encoding/json.Decoder).Decode" {
-								decodes = append(decodes, in)
+	n := 0
+	var judge func(f *ssa.Function, pIdx int, needSyntax bool, depth int)
+	judge = func(f *ssa.Function, pIdx int, needSyntax bool, depth int) {
+		if depth > 3 || pIdx >= len(f.Params) {
+			return
+		}
+		c.R.Fn(fname(f))
+		var decodes []ssa.Instruction
+		ssau.Instrs(f, func(in ssa.Instruction) {
+			if ci, ok := in.(ssa.CallInstruction); ok {
+				nm := ssau.CalleeName(ci)
+				if nm == "encoding/json.Unmarshal" || nm == "(*encoding/json.Decoder).Decode" {
+					decodes = append(decodes, in)
+				} else if h := ci.Common().StaticCallee(); h != nil && h.Blocks != nil && prog.PkgOf(h) == "core" {
+					// a helper that decodes (and answers one value: the decoded one)
+					if h.Signature.Results().Len() == 2 && f.Signature.Results().Len() == 2 {
+						return // judged as a delegate below
+					}
+					for _, g := range append([]*ssa.Function{h}, pkgClosure(h)...) {
+						ssau.Instrs(g, func(in2 ssa.Instruction) {
+							if c2, ok2 := in2.(ssa.CallInstruction); ok2 {
+								if n2 := ssau.CalleeName(c2); n2 == "encoding/json.Unmarshal" || n2 == "(*encoding/json.Decoder).Decode" {
+									decodes = append(decodes, in)
+								}
+							}
+						})
+					}
+				}
+			}
+		})
+		for _, b := range f.Blocks {
+			ret, ok := b.Instrs[len(b.Instrs)-1].(*ssa.Return)
+			if !ok || len(ret.Results) != 2 {
+				continue
+			}
+			for _, d := range phiEdgesWithBlocks(ret.Results[1], b) {
+				isJSON, isText, notText := !needSyntax, false, false
+				for _, ft := range flow.Expand(flow.FactsAt(d.b)) {
+					if bo, isB := ft.Cond.(*ssa.BinOp); isB && ((bo.Op == token.EQL && ft.True) || (bo.Op == token.NEQ && !ft.True)) {
+						if sv, isS := ssau.ConstString(bo.Y); isS && sv == "json" && bo.X == ssa.Value(f.Params[0]) {
+							isJSON = true
+						}
+					}
+					if ex, isEx := ft.Cond.(*ssa.Extract); isEx && ex.Index == 1 {
+						if ta, isTA := ex.Tuple.(*ssa.TypeAssert); isTA && ta.X == ssa.Value(f.Params[pIdx]) && ta.AssertedType.String() == "string" {
+							if ft.True {
+								isText = true
+							} else {
+								notText = true
 							}
 						}
-					})
-				}
-			}
-		}
-	})
-	n := 0
-	for _, b := range parser.Blocks {
-		ret, ok := b.Instrs[len(b.Instrs)-1].(*ssa.Return)
-		if !ok || len(ret.Results) != 2 {
-			continue
-		}
-		for _, d := range phiEdgesWithBlocks(ret.Results[1], b) {
-			if !ssau.IsNilConst(d.v) {
-				continue
-			}
-			isJSON, isText := false, false
-			for _, ft := range flow.Expand(flow.FactsAt(d.b)) {
-				if bo, isB := ft.Cond.(*ssa.BinOp); isB && ((bo.Op == token.EQL && ft.True) || (bo.Op == token.NEQ && !ft.True)) {
-					if s, isS := ssau.ConstString(bo.Y); isS && s == "json" && bo.X == ssa.Value(parser.Params[0]) {
-						isJSON = true
 					}
 				}
-				if ex, isEx := ft.Cond.(*ssa.Extract); isEx && ex.Index == 1 && ft.True {
-					if ta, isTA := ex.Tuple.(*ssa.TypeAssert); isTA && ta.X == ssa.Value(parser.Params[1]) && ta.AssertedType.String() == "string" {
-						isText = true
+				if !isJSON || notText {
+					continue
+				}
+				// handed to a helper together with the pattern: judged there
+				if ex, isEx := d.v.(*ssa.Extract); isEx {
+					if cl, isCl := ex.Tuple.(*ssa.Call); isCl {
+						if h := cl.Common().StaticCallee(); h != nil && h.Blocks != nil && prog.PkgOf(h) == "core" {
+							for ai, a := range cl.Common().Args {
+								if a == ssa.Value(f.Params[pIdx]) {
+									judge(h, ai, false, depth+1)
+								}
+							}
+							continue
+						}
 					}
 				}
-			}
-			if !isJSON || !isText {
-				continue
-			}
-			n++
-			after := false
-			for _, dc := range decodes {
-				if dc.Block() == d.b || dc.Block().Dominates(d.b) {
-					after = true
+				if !ssau.IsNilConst(d.v) || !isText {
+					continue
 				}
+				n++
+				after := false
+				for _, dc := range decodes {
+					if dc.Block() == d.b || dc.Block().Dominates(d.b) {
+						after = true
+					}
+				}
+				c.R.Check(after, rule, fmt.Sprintf("DefaultPatternParser: success #%d for a text under the json syntax comes after the decoder", n), c.pos(ret), "json.Unmarshal dominates the return", "under the json pattern syntax some pattern texts are taken as they stand instead of being decoded: the same pattern written with another layout (leading white space, say) becomes a string constant that matches nothing")
 			}
-			c.R.Check(after, rule, fmt.Sprintf("DefaultPatternParser: success #%d for a text under the json syntax comes after the decoder", n), c.pos(ret), "json.Unmarshal dominates the return", "under the json pattern syntax some pattern texts are taken as they stand instead of being decoded: the same pattern written with another layout (leading white space, say) becomes a string constant that matches nothing")
 		}
 	}
+	judge(parser, 1, true, 0)
 	if n == 0 {
 		c.R.Break(rule + ": no successful return for a text under the json syntax found in the default pattern parser")
 	}
